@@ -15,16 +15,17 @@ Trace == ndJsonDeserialize(IOEnv.TRACE_FILE)
 AsSet(seq) == {seq[i] : i \in DOMAIN seq}
 Tag(op, S) == {op \o "/" \o c : c \in S}
 
-ExtractFailed(s, c) ==
+ExtractFailed(O, s, c) ==
     IF \A i \in DOMAIN c.ext :
-          \E o \in OrfsOf(s) : /\ c.ext[i] = SubSeq(s, o[1] + 1, o[2])
-                               /\ TransWalk(c.r.v[i]) = OrfWalk(Len(s), c.d, c.off, c.rl, o)
+          \E o \in O : /\ c.ext[i] = SubSeq(s, o[1] + 1, o[2])
+                        /\ TransWalk(c.r.v[i]) = OrfWalk(Len(s), c.d, c.off, c.rl, o)
     THEN {} ELSE {"extracts_to_the_orf"}
-CallFailed(s, c) ==
+CallFailed(O, s, c) ==
     IF c.r.exc # "" THEN {"no_exception:" \o c.r.exc}
-    ELSE ScanFailed(s, c.d, c.off, c.min, c.rl, c.r.v) \cup ExtractFailed(s, c)
+    ELSE ScanFailedWith(O, s, c.d, c.off, c.min, c.rl, c.r.v) \cup ExtractFailed(O, s, c)
 ScanEventFailed(ev) ==
-    UNION {{"scan/" \o x \o ":" \o ToString(i) : x \in CallFailed(ev.s, ev.calls[i])} : i \in DOMAIN ev.calls}
+    LET O == OrfsOf(ev.s) IN
+    UNION {{"scan/" \o x \o ":" \o ToString(i) : x \in CallFailed(O, ev.s, ev.calls[i])} : i \in DOMAIN ev.calls}
 
 AllEventFailed(ev) ==
     IF ev.res.exc # "" THEN {"all/no_exception:" \o ev.res.exc}
